@@ -20,7 +20,7 @@ ASSUMPTIONS = [
 ]
 BUDGET = {"quick": 4000, "thorough": 150000}
 TIME_CAP = {"quick": 70, "thorough": 1500}
-PROFILE = {"max_steps": 4, "min_steps": 1, "p_timed": 0.2, "p_junction": 0.4, "p_function": 0.1, "extreme": 0.1, "max_pops": 2, "p_transfer": 0.2, "characs": True, "p_output_pars": 0.0, "max_ord": 4}
+PROFILE = {"p_indirect_junction": 0.0, "max_steps": 4, "min_steps": 1, "p_timed": 0.2, "p_junction": 0.4, "p_function": 0.1, "extreme": 0.1, "max_pops": 2, "p_transfer": 0.2, "characs": True, "p_output_pars": 0.0, "max_ord": 4}
 
 
 @st.composite
